@@ -142,6 +142,8 @@ class Recorder(object):
         self.world = drv.World(txin, own, TMAXOUT, salt=b"%d" % salt)
         self.wallet = drv.Wallet(self.world, base)
         self.chain = drv.Chain(self.wallet, par, wt, cont, base, drv.labels(self.n, label_kind, salt))
+        if salt % 2 == 0:
+            self.chain.one_by_one = (TKMAX, zero_is_none)
         self.zero_is_none = zero_is_none
         self.ev = []
         self.problem = None          # something no rule book can explain (exception, malformed result)
@@ -173,7 +175,10 @@ class Recorder(object):
                 rep = self.chain.deliver(act[1])
                 self.cur_chain = rep["chain"]
                 pad = [-1] * (TN - self.n)
-                self._obs({"a": "D", "arg": list(act[1]), "chain": rep["chain"], "ops": rep["ops"], "idx": rep["idx"] + pad})
+                mid = [{"ws": m["ws"], "lbi": m["lbi"], "bal": m["bal"]} for m in self.chain.mid]
+                if any(m["extra"] for m in self.chain.mid):
+                    self.problem = "the Spendable table holds records of outputs that are not ours"
+                self._obs({"a": "D", "arg": list(act[1]), "chain": rep["chain"], "ops": rep["ops"], "idx": rep["idx"] + pad, "mid": mid})
             elif k == "M":
                 self.wallet.mempool(act[1])
                 self._obs({"a": "M", "t": act[1]})
@@ -248,7 +253,7 @@ def _random_contents(rnd, par, txin):
         chosen = []
         cand = list(range(1, TT + 1))
         rnd.shuffle(cand)
-        for t in sorted(cand[:rnd.choice([0, 1, 1, 2, 2, 3])]):
+        for t in sorted(cand[:rnd.choice([0, 1, 2, 2, 3, 3])]):
             if t in before:
                 continue
             ok = True
@@ -288,8 +293,13 @@ def record_random(args):
     shown = set()            # txs shown to the wallet so far (environment assumption of Mempool)
     nev = 0
     while nev < 14 and rec.problem is None:
-        r = rnd.random()
-        if todo and r < 0.5:
+        kinds = [("D", 5 if todo else 1), ("M", 2), ("S", 2), ("R", 1.5 if rec.lbi() >= base else 0)]
+        r = rnd.random() * sum(w for _, w in kinds)
+        for kind, w in kinds:
+            r -= w
+            if r < 0:
+                break
+        if kind == "D" and todo:
             k = rnd.randint(1, min(3, len(todo)))
             b, todo = todo[:k], todo[k:]
             if delivered and rnd.random() < 0.2:
@@ -299,16 +309,19 @@ def record_random(args):
             for x in rec.chain.seen_ops[-1] if rec.chain.seen_ops else ():
                 if x[0] == "add":
                     shown |= set(cont.get(x[1].bid, ()))
-        elif r < 0.72:
+        elif kind == "D":
+            if delivered:
+                rec.do(("D", sorted(set(rnd.sample(delivered, min(2, len(delivered)))))))
+        elif kind == "M":
             ok = [t for t in range(1, TT + 1)
                   if all((not own[q - 1]) or ((q - 1) // TMAXOUT + 1) in shown for q in txin[t - 1])]
             if ok:
                 t = rnd.choice(ok)
                 rec.do(("M", t))
                 shown.add(t)
-        elif r < 0.9:
+        elif kind == "S":
             rec.do(("S", rnd.choice([1, 2, 3, 6, 12, 40, 200])))
-        elif rec.lbi() >= base:
+        else:
             i = rnd.randint(base, rec.lbi())
             tip = rec.lbi()
             rec.do(("R", i))
@@ -316,8 +329,6 @@ def record_random(args):
                 if rnd.random() < 0.25:
                     rec.do(("S", rnd.choice([1, 3, 12])))
                 rec.do(("A",))
-        elif not todo:
-            break
         nev += 1
     tr = rec.header(sw)
     tr["ev"] = rec.ev
@@ -346,7 +357,7 @@ PROBE_BASE0 = {"index-0": (0, {1: [1], 2: [2]}, [("D", [1]), ("D", [2]), ("D", [
 
 def record_probe(name, spec, zero_is_none):
     base, cont, script = spec
-    rec = Recorder(PROBE_PAR, {b: 1 for b in PROBE_PAR}, PROBE_TXIN, PROBE_OWN, cont, base, "bytes", 1, zero_is_none)
+    rec = Recorder(PROBE_PAR, {b: 1 for b in PROBE_PAR}, PROBE_TXIN, PROBE_OWN, cont, base, "bytes", 2, zero_is_none)
     for act in script:
         rec.do(act)
     return rec
@@ -372,15 +383,22 @@ def run_traces(ctx, traces, base):
     raise MachineryError("trace run printed no verdict: %s" % r.raw_tail[-5:])
 
 
-def first_bad_event(ctx, trace, base):
-    """validate every prefix of a rejected trace: index of the first event TLC does not accept"""
-    pre = []
-    for m in range(1, len(trace["ev"]) + 1):
-        t = dict(trace)
-        t["ev"] = trace["ev"][:m]
-        pre.append(t)
+def first_bad_events(ctx, traces, base):
+    """validate every prefix of each rejected trace (one TLC run): for each trace the index of the
+    first event TLC does not accept"""
+    pre, owner = [], []
+    for ti, trace in enumerate(traces):
+        for m in range(1, len(trace["ev"]) + 1):
+            t = dict(trace)
+            t["ev"] = trace["ev"][:m]
+            pre.append(t)
+            owner.append((ti, m - 1))
     rej = run_traces(ctx, pre, base)
-    return rej[0] if rej else len(trace["ev"]) - 1
+    first = {}
+    for r in rej:
+        ti, j = owner[r]
+        first[ti] = min(first.get(ti, j), j)
+    return [first.get(ti, len(t["ev"]) - 1) for ti, t in enumerate(traces)]
 
 
 def detect_rule_book(ctx, fnd):
@@ -412,7 +430,10 @@ def detect_rule_book(ctx, fnd):
         fnd.fail("X01|probes|no-rule-book-explains|%s" % ",".join(stuck),
                  "the wallet's behaviour on the scripted probes %s matches the rule book of X01_Wallet under no combination of its "
                  "named deviations" % stuck, {"accepted_under": per, "events": {n: recs[n].ev for n in stuck}})
-        sw = dict(FAITHFUL)
+        # judge the rest by the rule book that explains most probes (keeps the report short)
+        score = [sum(1 for j in range(len(names)) if (ci * len(names) + j) not in rej) for ci in range(len(combos))]
+        best = max(range(len(combos)), key=lambda ci: (score[ci], sum(1 for k in SWITCHES[:4] if combos[ci][k])))
+        sw = dict(combos[best])
     else:
         ok.sort(key=lambda s: -sum(1 for k in SWITCHES[:4] if s[k]))
         sw = dict(ok[0])
@@ -492,6 +513,10 @@ def _judge(rec, obs, feed):
                     return j, None          # another allowed selection: the sibling behaviour judges the rest
                 if s["change"] != a["change"]:
                     return j, ("act=S|change", "created send leaves %r units of change, spec %r" % (s["change"], a["change"]), j)
+        for m, (wm, gm) in enumerate(zip(outs[j].get("mid", ()), o.get("mid", ()))):
+            d = _cmp_obs(wm, gm)
+            if d:
+                return j, ("act=D.%s|%s" % (a["ops"][m][0], d[0]), "after operation %d %s: %s" % (m + 1, a["ops"][m], d[1]), j)
         d = _cmp_obs(outs[j], o)
         if d:
             return j, ("act=%s|%s" % (a["a"], d[0]), d[1], j)
@@ -630,7 +655,7 @@ def run(ctx):
                 "input structure over our outputs x delivery orders/batchings incl. moves between tied chains x mempool/send/rewind "
                 "interleavings, TLC exhaustive within each cfg; replay: one concrete behaviour per transition of the model, executed on "
                 "SQLite3Wallet (operations fed directly; and through a real BlockChain); distinct_nontrivial = replayed behaviours whose "
-                "operations contain a removal, by (last call kind, number of calls)")
+                "operations contain a removal, by (sequence of call kinds, number of removals, number of additions, records known at the end)")
     ctx.assumptions += ["an unconfirmed tx is announced only after the txs whose outputs of ours it spends were shown to the wallet",
                         "block contents keep every chain valid (no tx twice, inputs created earlier, no double spend)",
                         "the wallet is driven from one thread; sqlite3 ':memory:'",
@@ -642,11 +667,11 @@ def run(ctx):
 
     # 1. the model
     if "model" in only:
-        cfgs = ["q_all", "q_reorg", "q_mix", "q_base0"] if q else ["q_all", "q_reorg", "q_mix", "q_base0", "t_all", "t_reorg", "t_mem4"]
+        cfgs = ["q_all", "q_reorg", "q_base0"] if q else ["q_all", "q_reorg", "q_mix", "q_base0", "t_all", "t_reorg", "t_own"]
         for cfg in cfgs:
             cov = (not q) and cfg in ("q_all", "q_mix")
             ctx.tlc("X01_Wallet", "X01_MC_Wallet_" + cfg, coverage=cov, timeout=6000,
-                    require_actions=() if not cov else ("Pick", "DeliverAny", "ProcAdd", "ProcRemove", "MempoolAny", "SendOkAny", "SendFailAny", "RewindAny"))
+                    require_actions=() if not cov else ("Pick", "Deliver", "ProcAdd", "ProcRemove", "Mempool", "SendOk", "SendFail", "Rewind"))
         # teeth of the model: each named deviation (today's pycoin) violates the property
         for dev, inv in (("ri", ("StateIsReplay",)), ("kc", ("StateIsReplay",)), ("km", ("StateIsReplay",)),
                          ("uz", ("BalanceOk",)), ("zs", ("StateIsReplay", "BalanceOk"))):
@@ -661,7 +686,7 @@ def run(ctx):
     # 3. spec -> code
     if "replay" in only:
         exports = (["rp_reorg", "rp_mem", "rp_send", "rp_rew", "rp_base0"] if q else
-                   ["rp_reorg", "rp_mem", "rp_send", "rp_rew", "rp_base0", "rp_t_send", "rp_t_reorg", "rp_t_mix", "rp_t_all2"])
+                   ["rp_reorg", "rp_mem", "rp_send", "rp_rew", "rp_base0", "rp_t_send", "rp_t_reorg"])
         nontriv = set()
         for cfg in exports:
             rp = Replayer(ctx, fnd, 3, zin)
@@ -671,8 +696,10 @@ def run(ctx):
                     if "allowed" not in rec["acts"][-1] and rec["acts"][-1]["a"] == "S":
                         raise MachineryError("export without the allowed selections")
                     rp.feed(rec)
-                    if any(o[0] == "remove" for a in rec["acts"] if a["a"] == "D" for o in a["ops"]):
-                        nontriv.add((rec["acts"][-1]["a"], len(rec["acts"])))
+                    ops = [o[0] for a in rec["acts"] if a["a"] == "D" for o in a["ops"]]
+                    if "remove" in ops:
+                        nontriv.add(("".join(a["a"] for a in rec["acts"]), ops.count("remove"), ops.count("add"),
+                                     sum(1 for r in rec["outs"][-1]["ws"] if r[0])))
             env = _sw_env(sw)
             ctx.tlc("X01_WalletReplay", "X01_WalletReplay_" + cfg, on_record=on, keep_records=False, timeout=6000,
                     env=env, workers=8)
@@ -693,7 +720,7 @@ def run(ctx):
 
     # 4. code -> spec
     if "trace" in only:
-        ntr = 1200 if q else 12000
+        ntr = 3000 if q else 16000
         for base, share in ((1, 0.8), (0, 0.2)):
             cnt = int(ntr * share)
             seeds = [ctx.seed * 1000003 + base * 500009 + i for i in range(cnt)]
@@ -711,6 +738,9 @@ def run(ctx):
                 rej = run_traces(ctx, [g["trace"] for g in chunk], base)
                 ctx.case(None, len(chunk))
                 rejset = set(rej)
+                hard = [i for i in rej if not chunk[i]["problem"]][:40]      # located with one more TLC run
+                where = dict(zip(hard, first_bad_events(ctx, [chunk[i]["trace"] for i in hard], base))) if hard else {}
+                ctx.extra["traces_rejected"] = ctx.extra.get("traces_rejected", 0) + len(rejset | {i for i, g in enumerate(chunk) if g["problem"]})
                 for i, g in enumerate(chunk):
                     if i not in rejset and not g["problem"]:
                         ctx.traces += 1
@@ -721,12 +751,14 @@ def run(ctx):
                         at = tr["ev"][-1].get("call", tr["ev"][-1]["a"]) if tr["ev"] else "?"
                         key = "X01|trace|base=%d|at=%s|%s" % (base, at, g["problem"].split(":")[0][:60])
                         what = g["problem"]
-                    else:
-                        j = first_bad_event(ctx, tr, base) if len(ctx.violations) < 6 else 0
+                    elif i in where:
+                        j = where[i]
                         e = tr["ev"][j]
                         key = "X01|trace|base=%d|rejected-at=%s" % (base, e["a"])
                         what = "event %d (%s) of a recorded run is not a step of ChainTrack + X01_Wallet: %s" % (
                             j + 1, e["a"], {k: v for k, v in e.items()})
+                    else:
+                        continue
                     fnd.fail(key, "recorded BlockChain+SQLite3Wallet run (seed %d, base %d): %s" % (g["seed"], base, what),
                              {"trace": tr, "problem": g["problem"], "seed": g["seed"]})
             if base == 1:
@@ -739,8 +771,10 @@ def _replay_selftest(ctx, zin):
     """a corrupted expectation must be noticed (canned observation: independent of the tree under test)"""
     rec = {"k": "beh", "base": 1, "par": [0], "wt": [1], "txin": [[]], "own": [True, False], "cont": [[1]],
            "acts": [{"a": "D", "B": [1], "chain": [1], "ops": [["add", 1, 0]]}],
-           "outs": [{"ws": [[1, 1, -1, 0], [0, -1, -1, 0]], "lbi": 1, "bal": [1, 1, 0, 0]}]}
-    good = [{"ws": [[1, 1, -1, 0], [0, -1, -1, 0]], "lbi": 1, "bal": [1, 1, 0, 0], "extra": 0}]
+           "outs": [{"ws": [[1, 1, -1, 0], [0, -1, -1, 0]], "lbi": 1, "bal": [1, 1, 0, 0],
+                     "mid": [{"ws": [[1, 1, -1, 0], [0, -1, -1, 0]], "lbi": 1, "bal": [1, 1, 0, 0]}]}]}
+    good = [{"ws": [[1, 1, -1, 0], [0, -1, -1, 0]], "lbi": 1, "bal": [1, 1, 0, 0], "extra": 0,
+             "mid": [{"ws": [[1, 1, -1, 0], [0, -1, -1, 0]], "lbi": 1, "bal": [1, 1, 0, 0], "extra": 0}]}]
     ok1 = _judge(rec, good, "ops")[1] is None
     bad = copy.deepcopy(rec)
     bad["outs"][0]["ws"][0][1] = 2
@@ -748,7 +782,10 @@ def _replay_selftest(ctx, zin):
     bad = copy.deepcopy(rec)
     bad["outs"][0]["bal"][1] = 0
     ok3 = _judge(bad, good, "ops")[1] is not None
-    ctx.selftest("replay_rejects_corrupted_expectation", ok1 and ok2 and ok3)
+    bad = copy.deepcopy(rec)
+    bad["outs"][0]["mid"][0]["lbi"] = 0
+    ok4 = _judge(bad, good, "ops")[1] is not None
+    ctx.selftest("replay_rejects_corrupted_expectation", ok1 and ok2 and ok3 and ok4)
 
 
 def _trace_selftest(ctx, accepted, base):
